@@ -8,6 +8,7 @@ CONSTANTS
   MaxReq = 8
   MaxBatch = 2
   Hist = TRUE
+  Deliveries = {"single", "pipelined", "fragmented"}
   SplitReg = TRUE
 INVARIANTS TypeOK Partition NextRequest
 PROPERTIES P_C20 P_LiveReleased P_LiveRequest P_LiveOutside P_LivePark
